@@ -369,6 +369,9 @@ def gen_script(tier, rng):
             e = maxe
         add("sipow", [canon(a), "z" + hx(e)], val=a ** e)
         add("bipow", [canon(a), canon(e)], val=a ** e)
+    for a, e, c in [(5, 0, 1), (5, 0, -1), (0, 0, 1), (7, 0, 2), (0, 0, 5), (0, 3, 5), (10, -1, 5), (3, -1, 5),
+                    (-2, 3, 5), (-2, 4, 5), (2, 10, -1), (2 ** 70, 2 ** 65 + 1, 2 ** 64 - 59)]:
+        add("powmod", [canon(a), canon(e), canon(c)], val=powmod_ref(a, e, c))
     for _ in range(150 * nb):
         a = rng.choice(G)
         e = abs(rng.choice(G)) >> rng.choice([0, 0, 30, 60, 100])
@@ -434,20 +437,15 @@ def fam_patterns_n(n):
 
 
 def powmod_ref(a, e, c):
-    """What fiBIntPowerMod is specified to return here: the remainder (sign of the dividend) of a^e by c.
-    None = the wrapper raises."""
+    """Exact arithmetic: the remainder (sign of the dividend, as bintMod) of a^e by c.
+    None = the wrapper raises (zero modulus; negative exponent unless a is a multiple of c)."""
     if c == 0:
         return None
-    if e == 0:
-        return 1
-    ra = rem(a, c)
-    if ra == 0:
-        return 0
     if e < 0:
-        return None
+        return 0 if rem(a, c) == 0 else None
     m = abs(c)
-    p = pow(abs(ra), e, m)
-    neg = (ra < 0) and (e % 2 == 1)
+    p = pow(abs(a), e, m)
+    neg = (a < 0) and (e % 2 == 1)
     return -p if neg else p
 
 
@@ -791,11 +789,26 @@ def correspondence(rep, tier, only_lines=None):
         items = sorted(bad[op])
         hard = [x for x in items if not x[4]]
         if hard:
-            size, line, cout, why, _ = hard[0]
-            rep.violation("bigint %s: %s" % (op, why),
-                          {"script": [line], "c_output": cout, "why": why, "count_for_this_op": len(hard)},
-                          key="%s:%s" % (op, line))
-            reported += 1
+            # fiBIntPowerMod(a, 0, +-1) answers 1 (exact: 0): one stable key for that corner, so that any other
+            # failure of the same operation still fires
+            def corner(item):
+                toks = item[1].split(" ")
+                return op == "powmod" and raw_value(toks[2]) == 0 and abs(raw_value(toks[3])) == 1
+            cor = [x for x in hard if corner(x)]
+            rest = [x for x in hard if not corner(x)]
+            if cor:
+                cor.sort(key=lambda x: (raw_value(x[1].split(" ")[1]) == 0, x[0]))
+                size, line, cout, why, _ = cor[0]
+                if rep.violation("fiBIntPowerMod(a, 0, c) with |c| = 1 returns 1; a^0 mod c is 0: %s" % why,
+                                 {"script": [line], "c_output": cout, "why": why, "count_for_this_op": len(cor)},
+                                 key="powmod:zero-exponent-unit-modulus"):
+                    reported += 1
+            if rest:
+                size, line, cout, why, _ = rest[0]
+                rep.violation("bigint %s: %s" % (op, why),
+                              {"script": [line], "c_output": cout, "why": why, "count_for_this_op": len(rest)},
+                              key="%s:%s" % (op, line))
+                reported += 1
         else:
             # right value, wrong representation: look for a later operation that goes wrong on it
             size, line, cout, why, _ = items[0]
